@@ -223,3 +223,34 @@ Definition cache_step (c : cache) (co : cop) : cache * out :=
   end.
 
 Definition run_cache (c : cache) (l : list cop) : cache := fold_left (fun c o => fst (cache_step c o)) l c.
+
+(** ** Executable description of "a remote that a failed Commit may have left behind"
+    (used by the correspondence check on every observed failure; Proofs/Cache.v shows that
+    from any such remote a later Commit converges).  [r0] is the remote with all tombstones
+    applied, [r] the observed remote with all tombstones applied: every path holds the buffer's
+    entry, or still what [r0] holds, or - below a buffered directory - a directory created on the
+    way, or - at a buffered file - a file with any content (a stream cut short). *)
+Definition oentry_eqb (a b : option entry) : bool :=
+  match a, b with
+  | None, None => true
+  | Some D, Some D => true
+  | Some (F x), Some (F y) => bytes_eqb x y
+  | _, _ => false
+  end.
+
+Definition g_ok (B r0 r : fs) (q : path) : bool :=
+  match lookup B q with
+  | Some e =>
+    oentry_eqb (lookup r q) (Some e) || oentry_eqb (lookup r q) (lookup r0 q) ||
+    match e with
+    | D => oentry_eqb (lookup r q) (Some D)
+    | F _ => match lookup r q with Some (F _) => true | _ => false end
+    end
+  | None => oentry_eqb (lookup r q) (lookup r0 q)
+  end.
+
+Definition partial_ok (c : cache) (rp : fs) : bool :=
+  wf rp &&
+  let r0 := apply_tombs (cR c) (cT c) in
+  let r := apply_tombs rp (cT c) in
+  forallb (g_ok (cB c) r0 r) (map fst r ++ map fst r0 ++ map fst (cB c)).
